@@ -632,7 +632,9 @@ pub mod harness {
                                 if gs.is_empty() {
                                     continue;
                                 }
-                                let passed = log.iter().any(|e| e.starts_with(&format!("{}.{}.", b, k)));
+                                // progress = an event of the branch's step behind its pending points (the `.o` operand event of
+                                // step 0 is logged when the branch is built, before any pending point)
+                                let passed = log.iter().any(|e| e.starts_with(&format!("{}.{}.", b, k)) && !e.starts_with(&format!("{}.{}.o", b, k)));
                                 if gs.iter().all(|g| rel.contains(g)) {
                                     if !passed {
                                         return Some(format!(
